@@ -37,6 +37,7 @@ func c10(c *Ctx) {
 	c06R6(c, "R6")
 	c11R1(c, "R7/C11.R1")
 	sConfigClone(c, "R7/S-CFGCLONE")
+	sConfigCodec(c, "R8/S-CFGCODEC")
 	sState(c, "R7/S-STATE")
 }
 
